@@ -404,6 +404,15 @@ instance (ms : List MatS) : Decidable (Pre_khatrirao ms) := by unfold Pre_khatri
 
 /-! ### algorithm options -/
 
+/-- ranks of `hosvd` (0: to be chosen) and `tucker_als` lie within the extents -/
+def RanksWithin (shape : List Nat) (ranks : List Int) (lo : Int) : Prop :=
+  ranks.length = shape.length ∧ ∀ k, k < shape.length → lo ≤ ranks.getD k 0 ∧ ranks.getD k 0 ≤ (shape.getD k 0 : Int)
+
+instance (shape : List Nat) (ranks : List Int) (lo : Int) : Decidable (RanksWithin shape ranks lo) := by
+  unfold RanksWithin; exact inferInstanceAs (Decidable (_ ∧ ∀ k, k < shape.length → _))
+
+
+
 /-- an initial guess: a Kruskal tensor (shape, number of components, flags for negative
 factor entries / weights), a list of matrices, or a name -/
 inductive InitSpec where
@@ -475,8 +484,8 @@ structure TuckerArgs where
 /-- rank of mode `n` when a single rank stands for all modes -/
 def rankAt (rank : List Int) (n : Nat) : Int := if rank.length = 1 then rank.getD 0 0 else rank.getD n 0
 
-/-- a list guess has one matrix per mode, each (beyond the first mode visited, which is
-recomputed) of size extent × rank; or one of the names -/
+/-- a list guess has one matrix per mode, each (beyond the first mode visited, whose matrix is
+recomputed before it is used) of size extent × rank; or one of the names -/
 def InitSpec.fitsTucker (i : InitSpec) (shape : List Nat) (rank order : List Int) : Prop :=
   match i with
   | .mats ms => ms.length = shape.length ∧ ∀ d ∈ order.drop 1,
@@ -488,20 +497,25 @@ def InitSpec.fitsTucker (i : InitSpec) (shape : List Nat) (rank order : List Int
 instance (i : InitSpec) (shape : List Nat) (rank order : List Int) : Decidable (i.fitsTucker shape rank order) := by
   unfold InitSpec.fitsTucker; split <;> infer_instance
 
-/-- one rank or one per mode; `dimorder` a permutation; a fitting guess -/
+/-- the rank vector of `tucker_als` after a single rank has been repeated for every mode -/
+def expandRank (N : Nat) (rank : List Int) : List Int :=
+  if rank.length = 1 then List.replicate N (rank.getD 0 0) else rank
+
+/-- one rank or one per mode, each between 1 and the extent; `dimorder` a permutation; a fitting guess -/
 def Pre_tucker (a : TuckerArgs) : Prop :=
-  a.maxitersNonneg = true ∧ (a.rank.length = 1 ∨ a.rank.length = a.shape.length) ∧ 0 < a.shape.length ∧
+  a.maxitersNonneg = true ∧ RanksWithin a.shape (expandRank a.shape.length a.rank) 1 ∧ 0 < a.shape.length ∧
   optAll a.dimorder (fun p => IsPermI p a.shape.length) ∧
   a.init.fitsTucker a.shape a.rank (a.dimorder.getD ((List.range a.shape.length).map Int.ofNat))
 
 instance (a : TuckerArgs) : Decidable (Pre_tucker a) := by unfold Pre_tucker; infer_instance
 
-/-- `hosvd`: one rank per mode when ranks are given; `dimorder` a permutation -/
-def Pre_hosvd (N : Nat) (ranks : Option Nat) (dimorder : Option (List Int)) : Prop :=
-  optAll ranks (fun k => k = N) ∧ optAll dimorder (fun p => IsPermI p N)
+/-- `hosvd`: when ranks are given, one per mode, each between 0 (to be chosen) and the extent;
+`dimorder` a permutation -/
+def Pre_hosvd (shape : List Nat) (ranks : Option (List Int)) (dimorder : Option (List Int)) : Prop :=
+  optAll ranks (fun r => RanksWithin shape r 0) ∧ optAll dimorder (fun p => IsPermI p shape.length)
 
-instance (N : Nat) (ranks : Option Nat) (dimorder : Option (List Int)) : Decidable (Pre_hosvd N ranks dimorder) := by
-  unfold Pre_hosvd; infer_instance
+instance (shape : List Nat) (ranks : Option (List Int)) (dimorder : Option (List Int)) :
+    Decidable (Pre_hosvd shape ranks dimorder) := by unfold Pre_hosvd; infer_instance
 
 structure GcpArgs where
   shape : List Nat
@@ -559,5 +573,214 @@ def Pre_import : ImportArgs → Prop
 
 instance (a : ImportArgs) : Decidable (Pre_import a) := by
   cases a <;> unfold Pre_import <;> infer_instance
+
+/-! ### the remaining public operations -/
+
+/-- `tensor.mttkrps(U)`: at least two modes, one factor per mode, each of size extent × R -/
+def Pre_mttkrps (shape : List Nat) (U : List MatS) : Prop :=
+  2 ≤ shape.length ∧ U.length = shape.length ∧
+  ∀ i, i < shape.length → U.getD i (0, 0) = (shape.getD i 0, (U.getD 0 (0, 0)).2)
+
+instance (shape : List Nat) (U : List MatS) : Decidable (Pre_mttkrps shape U) := by
+  unfold Pre_mttkrps; exact inferInstanceAs (Decidable (_ ∧ _ ∧ ∀ i, i < shape.length → _))
+
+/-- the `version` argument of `ttsv`: absent, 1 (through `ttv`), 2, or anything else -/
+inductive TtsvVersion where
+  | default | v1 | v2 | other
+  deriving DecidableEq, Repr
+
+structure TtsvArgs where
+  shape : List Nat
+  veclen : Nat
+  skip : Option Int
+  version : TtsvVersion
+
+/-- the `ttv` request `ttsv` stands for: the same vector for every mode, the first
+`skip_dim + 1` modes excluded -/
+def TtsvArgs.asTtv (a : TtsvArgs) : TtvArgs :=
+  { shape := a.shape, vecs := List.replicate a.shape.length a.veclen, dims := none,
+    excl := a.skip.map (fun s => (List.range (s + 1).toNat).map Int.ofNat) }
+
+/-- the direct computation needs all modes of one size and, when a mode is multiplied, a
+vector of that size -/
+def TtsvArgs.directOK (a : TtsvArgs) : Prop :=
+  a.shape ≠ [] ∧ (∀ e ∈ a.shape, e = a.shape.getD 0 0) ∧
+  (((a.skip.getD (-1)) + 1 < (a.shape.length : Int)) → a.veclen = a.shape.getD 0 0)
+
+instance (a : TtsvArgs) : Decidable a.directOK := by unfold TtsvArgs.directOK; infer_instance
+
+/-- `skip_dim` is a mode; version 1 is the `ttv` request; otherwise the direct computation -/
+def Pre_ttsv (a : TtsvArgs) : Prop :=
+  optAll a.skip (IsMode a.shape.length) ∧
+  (match a.version with
+   | .v1 => Pre_ttv a.asTtv
+   | .v2 => a.directOK
+   | .default => a.directOK
+   | .other => False)
+
+instance (a : TtsvArgs) : Decidable (Pre_ttsv a) := by
+  unfold Pre_ttsv
+  refine @instDecidableAnd _ _ _ ?_
+  split <;> infer_instance
+
+/-- all modes of a group have the extent of its first mode -/
+def SameExtents (shape : List Nat) (g : List Int) : Prop :=
+  ∀ m ∈ g, shape.getD m.toNat 0 = shape.getD (g.getD 0 0).toNat 0
+
+instance (shape : List Nat) (g : List Int) : Decidable (SameExtents shape g) := by
+  unfold SameExtents; infer_instance
+
+/-- two groups share no mode -/
+def GroupsDisjoint (g h : List Int) : Prop := ∀ x ∈ g, x ∉ h
+
+instance (g h : List Int) : Decidable (GroupsDisjoint g h) := by unfold GroupsDisjoint; infer_instance
+
+/-- the groups of a symmetry request (all modes in one group when absent) -/
+def symGroups (N : Nat) (grps : Option (List (List Int))) : List (List Int) :=
+  grps.getD [(List.range N).map Int.ofNat]
+
+/-- `tensor.symmetrize(grps)`: every group lists distinct modes of the tensor, of one extent,
+and no mode is in two groups -/
+def Pre_symmetrize (shape : List Nat) (grps : Option (List (List Int))) : Prop :=
+  (∀ g ∈ symGroups shape.length grps, ModesOK shape.length g) ∧
+  (∀ g ∈ symGroups shape.length grps, SameExtents shape g) ∧
+  (symGroups shape.length grps).Pairwise GroupsDisjoint
+
+instance (shape : List Nat) (grps : Option (List (List Int))) : Decidable (Pre_symmetrize shape grps) := by
+  unfold Pre_symmetrize; infer_instance
+
+/-- `tensor.issymmetric(grps)`: every group lists distinct modes of the tensor (different
+extents or overlapping groups are answered, with `False` / a test of both) -/
+def Pre_issymmetric (shape : List Nat) (grps : Option (List (List Int))) : Prop :=
+  ∀ g ∈ symGroups shape.length grps, ModesOK shape.length g
+
+instance (shape : List Nat) (grps : Option (List (List Int))) : Decidable (Pre_issymmetric shape grps) := by
+  unfold Pre_issymmetric; infer_instance
+
+/-- `ktensor.symmetrize()`: all modes of one size -/
+def Pre_ksymmetrize (shape : List Nat) : Prop := shape ≠ [] ∧ ∀ e ∈ shape, e = shape.getD 0 0
+
+instance (shape : List Nat) : Decidable (Pre_ksymmetrize shape) := by unfold Pre_ksymmetrize; infer_instance
+
+/-- `ktensor.fixsigns(other)` / `score(other)`: the same shape, and `other` has no more components -/
+def Pre_kmatch (sa sb : List Nat) (ra rb : Nat) : Prop := sa = sb ∧ rb ≤ ra
+
+instance (sa sb : List Nat) (ra rb : Nat) : Decidable (Pre_kmatch sa sb ra rb) := by unfold Pre_kmatch; infer_instance
+
+structure UpdateArgs where
+  shape : List Nat
+  R : Nat
+  modes : List Int
+  datalen : Nat
+
+/-- entries a mode (or `-1`, the weights) takes from the data vector -/
+def UpdateArgs.needed (a : UpdateArgs) : Nat :=
+  (a.modes.map fun k => if k = -1 then a.R else a.shape.getD k.toNat 0 * a.R).sum
+
+/-- `ktensor.update(modes, data)`: modes strictly ascending, each `-1` or a mode, enough data -/
+def Pre_update (a : UpdateArgs) : Prop :=
+  (∀ i, i < a.modes.length - 1 → a.modes.getD i 0 < a.modes.getD (i + 1) 0) ∧
+  (∀ k ∈ a.modes, -1 ≤ k ∧ k < (a.shape.length : Int)) ∧ a.needed ≤ a.datalen
+
+instance (a : UpdateArgs) : Decidable (Pre_update a) := by
+  unfold Pre_update
+  exact inferInstanceAs (Decidable ((∀ i, i < a.modes.length - 1 → _) ∧ _))
+
+/-- a sample of one mode for `ttensor.reconstruct`: row indices (the largest is kept) or a
+matrix applied to the factor -/
+inductive SampleS where
+  | idx (maxIdx : Nat)
+  | mat (rows cols : Nat)
+  deriving Repr
+
+def SampleS.fits (s : SampleS) (extent : Nat) : Prop :=
+  match s with
+  | .idx m => m < extent
+  | .mat _ c => c = extent
+
+instance (s : SampleS) (e : Nat) : Decidable (s.fits e) := by unfold SampleS.fits; split <;> infer_instance
+
+/-- `ttensor.reconstruct(samples, modes)`: modes only with samples; the modes are distinct
+modes of the tensor, one sample each, every sample inside its mode -/
+def Pre_reconstruct (shape : List Nat) (samples : Option (List SampleS)) (modes : Option (List Int)) : Prop :=
+  match samples with
+  | none => modes = none
+  | some ss =>
+    let ms := modes.getD ((List.range shape.length).map Int.ofNat)
+    ModesOK shape.length ms ∧ (ss ≠ [] → ss.length = ms.length) ∧
+    ∀ p ∈ ss.zip ms, p.1.fits (shape.getD p.2.toNat 0)
+
+instance (shape : List Nat) (samples : Option (List SampleS)) (modes : Option (List Int)) :
+    Decidable (Pre_reconstruct shape samples modes) := by
+  unfold Pre_reconstruct
+  split <;> infer_instance
+
+/-- `ktensor.from_function(f, shape, R)`: `f` returns an extent × R array for every mode -/
+def Pre_kfromFunction (shape : List Nat) (R : Nat) (returned : List MatS) : Prop :=
+  returned = shape.map (fun e => (e, R))
+
+instance (shape : List Nat) (R : Nat) (returned : List MatS) : Decidable (Pre_kfromFunction shape R returned) := by
+  unfold Pre_kfromFunction; infer_instance
+
+structure SpSetArgs where
+  mshape : MatS
+  rsubs : List Int
+  csubs : List Int
+  /-- number of values (none: a scalar for all cells) -/
+  nvals : Option Nat
+
+/-- `sptenmat[rows, cols] = values`: indices inside the matrix, one value per cell -/
+def Pre_sptenmatSet (a : SpSetArgs) : Prop :=
+  (∀ r ∈ a.rsubs, 0 ≤ r ∧ r < (a.mshape.1 : Int)) ∧ (∀ c ∈ a.csubs, 0 ≤ c ∧ c < (a.mshape.2 : Int)) ∧
+  optAll a.nvals (fun n => n = a.rsubs.length * a.csubs.length)
+
+instance (a : SpSetArgs) : Decidable (Pre_sptenmatSet a) := by unfold Pre_sptenmatSet; infer_instance
+
+/-- `tenmat[i, j]` (read or write of one cell): NumPy positions, counted from the end when negative -/
+def Pre_tenmatIndex (mshape : MatS) (i j : Int) : Prop :=
+  -(mshape.1 : Int) ≤ i ∧ i < mshape.1 ∧ -(mshape.2 : Int) ≤ j ∧ j < mshape.2
+
+instance (mshape : MatS) (i j : Int) : Decidable (Pre_tenmatIndex mshape i j) := by unfold Pre_tenmatIndex; infer_instance
+
+/-- `nvecs(n, r)`: `n` a mode, between one and extent-many vectors -/
+def Pre_nvecs (shape : List Nat) (n r : Int) : Prop :=
+  IsMode shape.length n ∧ 0 < r ∧ r ≤ (shape.getD n.toNat 0 : Int)
+
+instance (shape : List Nat) (n r : Int) : Decidable (Pre_nvecs shape n r) := by unfold Pre_nvecs; infer_instance
+
+/-- `tenfun` with a function of one (stacked) argument: every further tensor has the shape of the first -/
+def Pre_tenfunUnary (shape : List Nat) (others : List (List Nat)) : Prop := ∀ s ∈ others, s = shape
+
+instance (shape : List Nat) (others : List (List Nat)) : Decidable (Pre_tenfunUnary shape others) := by
+  unfold Pre_tenfunUnary; infer_instance
+
+/-- `ktensor.viz`: option lists have one entry per mode -/
+def Pre_viz (N : Nat) (lens : List Nat) : Prop := ∀ l ∈ lens, l = N
+
+instance (N : Nat) (lens : List Nat) : Decidable (Pre_viz N lens) := by unfold Pre_viz; infer_instance
+
+/-- `sptensor.spmatrix()`: two modes -/
+def Pre_spmatrix (shape : List Nat) : Prop := shape.length = 2
+
+instance (shape : List Nat) : Decidable (Pre_spmatrix shape) := by unfold Pre_spmatrix; infer_instance
+
+/-- `sptensor.from_function(f, shape, nonzeros)`: a count between 0 and the number of cells
+(or a density), and `f` returns one value per requested entry -/
+def Pre_spFromFunction (shape : List Nat) (nonzeros : Int) (returnsRequested : Bool) : Prop :=
+  0 ≤ nonzeros ∧ nonzeros ≤ (numel shape : Int) ∧ returnsRequested = true
+
+instance (shape : List Nat) (nonzeros : Int) (b : Bool) : Decidable (Pre_spFromFunction shape nonzeros b) := by
+  unfold Pre_spFromFunction; infer_instance
+
+/-- `sptenmat.from_array(array, rdims, cdims, tshape)`: a 2-d array no larger than the
+matricization, whose mode split is a permutation -/
+def Pre_fromArray (ashape : MatS) (rdims cdims : Option (List Int)) (tshape : List Nat) : Prop :=
+  match wrapDimsI tshape.length rdims cdims none with
+  | none => False
+  | some (r, c) => IsPermI (r ++ c) tshape.length ∧ (0 < ashape.1 ∧ 0 < ashape.2 →
+      ashape.1 ≤ sideSize tshape r ∧ ashape.2 ≤ sideSize tshape c)
+
+instance (ashape : MatS) (rdims cdims : Option (List Int)) (tshape : List Nat) :
+    Decidable (Pre_fromArray ashape rdims cdims tshape) := by unfold Pre_fromArray; split <;> infer_instance
 
 end Pyttb
